@@ -81,6 +81,90 @@ pub fn hash3_x64_128(data: &[u8]) -> (u64, u64) {
     (h1, h2)
 }
 
+/// (h1, h2) after the full 16-byte blocks of `data` (seed 0); `data.len()` must be a multiple of 16.
+fn state_after_blocks(data: &[u8]) -> (u64, u64) {
+    assert!(data.len() % 16 == 0);
+    let (mut h1, mut h2) = (0u64, 0u64);
+    for blk in data.chunks(16) {
+        let k1 = block(&blk[..8]).wrapping_mul(C1).rotate_left(31).wrapping_mul(C2);
+        let k2 = block(&blk[8..]).wrapping_mul(C2).rotate_left(33).wrapping_mul(C1);
+        h1 ^= k1;
+        h1 = h1.rotate_left(27).wrapping_add(h2).wrapping_mul(5).wrapping_add(0x52dc_e729);
+        h2 ^= k2;
+        h2 = h2.rotate_left(31).wrapping_add(h1).wrapping_mul(5).wrapping_add(0x3849_5ab5);
+    }
+    (h1, h2)
+}
+
+/// Inverse of an odd number modulo 2^64 (Newton iteration; a*a = 1 mod 8 gives 3 correct bits to start).
+fn inv_odd(a: u64) -> u64 {
+    let mut x = a;
+    for _ in 0..6 {
+        x = x.wrapping_mul(2u64.wrapping_sub(a.wrapping_mul(x)));
+    }
+    x
+}
+
+/// Inverse of `fmix`: `k ^= k >> 33` is its own inverse (shift >= 32), the multipliers are odd.
+fn fmix_inv(mut k: u64) -> u64 {
+    k ^= k >> 33;
+    k = k.wrapping_mul(inv_odd(0xc4ce_b9fe_1a85_ec53));
+    k ^= k >> 33;
+    k = k.wrapping_mul(inv_odd(0xff51_afd7_ed55_8ccd));
+    k ^= k >> 33;
+    k
+}
+
+/// The 16-byte block B such that `hash3_x64_128(prefix ++ B).0 == target_h1`, for any `prefix` whose
+/// length is a multiple of 16. `free_h2` is the value of h2 after its `fmix` (any value: it selects one
+/// of the 2^64 preimage blocks). Works because every step of the algorithm on full blocks is a
+/// bijection: the final `h1 += h2; h2 += h1`, `fmix`, the xor with the length, and the block step
+/// (xor, rotate, add, multiply by 5 / by the odd constants). The signed-byte quirk concerns tail bytes only.
+pub fn invert_last_block(prefix: &[u8], target_h1: i64, free_h2: u64) -> [u8; 16] {
+    let len = (prefix.len() + 16) as u64;
+    // undo: h1 += h2 (h2 += h1 does not influence the returned h1)
+    let f1 = (target_h1 as u64).wrapping_sub(free_h2);
+    let a = fmix_inv(f1); // h1 before fmix
+    let b = fmix_inv(free_h2); // h2 before fmix
+    // undo: h1 += h2; h2 += h1
+    let y = b.wrapping_sub(a);
+    let x = a.wrapping_sub(y);
+    let (s1, s2) = (x ^ len, y ^ len); // state after the last block
+    let (p1, p2) = state_after_blocks(prefix); // state before it
+    let inv5 = inv_odd(5);
+    let u = s1.wrapping_sub(0x52dc_e729).wrapping_mul(inv5).wrapping_sub(p2).rotate_right(27) ^ p1;
+    let k1 = u.wrapping_mul(inv_odd(C2)).rotate_right(31).wrapping_mul(inv_odd(C1));
+    let v = s2.wrapping_sub(0x3849_5ab5).wrapping_mul(inv5).wrapping_sub(s1).rotate_right(31) ^ p2;
+    let k2 = v.wrapping_mul(inv_odd(C1)).rotate_right(33).wrapping_mul(inv_odd(C2));
+    let mut out = [0u8; 16];
+    out[..8].copy_from_slice(&k1.to_le_bytes());
+    out[8..].copy_from_slice(&k2.to_le_bytes());
+    out
+}
+
+/// A single-block (16-byte) key whose raw Murmur3 h1 is exactly `target_h1`.
+pub fn invert_block16(target_h1: i64, free_h2: u64) -> [u8; 16] {
+    invert_last_block(&[], target_h1, free_h2)
+}
+
+/// A two-component composite key whose framed stream (len16|a|0|len16|b|0 = 32 bytes) hashes to
+/// exactly `target_h1`: a = 11 chosen bytes, so the first block is `00 0b a 00 00 0f`, and the second
+/// block is `b (15 bytes) 00`; the free parameter is searched until the inverted block ends in 0x00.
+pub fn composite_preimage(target_h1: i64, salt: u64) -> (Vec<u8>, Vec<u8>) {
+    let a: Vec<u8> = (0..11).map(|i| (0x90 + 13 * i as u64 + salt) as u8).collect();
+    let mut first = vec![0x00, 0x0b];
+    first.extend_from_slice(&a);
+    first.extend_from_slice(&[0x00, 0x00, 0x0f]);
+    let mut free = salt.wrapping_mul(0x9e37_79b9_7f4a_7c15);
+    loop {
+        let blk = invert_last_block(&first, target_h1, free);
+        if blk[15] == 0 {
+            return (a, blk[..15].to_vec());
+        }
+        free = free.wrapping_add(0x2545_f491_4f6c_dd1d);
+    }
+}
+
 /// Standard (canonical, unsigned-tail) MurmurHash3 x64-128, seed 0. Only used to show in the
 /// evidence on which inputs the Cassandra variant differs from the textbook algorithm.
 pub fn hash3_x64_128_canonical_h1(data: &[u8]) -> u64 {
@@ -203,6 +287,30 @@ pub fn self_test() -> Result<(), String> {
     blk[3] = 0xfe;
     if hash3_x64_128(&blk).0 != hash3_x64_128_canonical_h1(&blk) {
         return Err("block bytes treated as signed".into());
+    }
+    // constructed preimages: the reference hash of the inverted block is exactly the target
+    for (i, target) in [i64::MIN, i64::MIN + 1, i64::MAX, -1, 0, 0x0123_4567_89ab_cdef].into_iter().enumerate() {
+        for free in [0u64, 1, u64::MAX, 0xdead_beef_0bad_f00d, i as u64 * 0x9e37_79b9] {
+            let b = invert_block16(target, free);
+            if hash3_x64_128(&b).0 as i64 != target {
+                return Err(format!("invert_block16({target}, {free}) does not hash back"));
+            }
+            let prefix = [0x80u8 + i as u8; 32];
+            let b2 = invert_last_block(&prefix, target, free);
+            let mut whole = prefix.to_vec();
+            whole.extend_from_slice(&b2);
+            if hash3_x64_128(&whole).0 as i64 != target {
+                return Err(format!("invert_last_block(32-byte prefix, {target}, {free}) does not hash back"));
+            }
+        }
+        let (a, b) = composite_preimage(target, i as u64);
+        let framed = partition_key_bytes(&[&a, &b]).unwrap();
+        if framed.len() != 32 || hash3_x64_128(&framed).0 as i64 != target {
+            return Err(format!("composite_preimage({target}) does not hash back"));
+        }
+    }
+    if murmur3_token(&invert_block16(i64::MIN, 7)) != i64::MAX {
+        return Err("MIN preimage is not normalised to MAX".into());
     }
     if partition_key_bytes(&[b"ab", b""]) != Some(vec![0, 2, b'a', b'b', 0, 0, 0, 0]) {
         return Err("composite framing".into());
